@@ -38,7 +38,7 @@ def cases(combo, nsens):
     def _c(draw):
         m = draw(models.model_specs(names="ident", n_state=(1, 3), n_control=(1, 2), n_calib=(1, 2),
                                     n_sensors=(nsens, nsens), n_readings=(1, 3), depth=2, sensor_depth=2, combo=combo,
-                                    euler=True, innovation=("none", "k")))
+                                    euler="bounded", innovation=("none", "k")))
         n = len(m["state"])
         max_dt = m["config"]["max_dt"]
         t0 = draw(st.sampled_from([0.0, 5.0, -2.0]))
